@@ -316,6 +316,10 @@ def check(prop, tier, seed, replay):
             for pth in reported:
                 log("VIOLATION property=%s replay=%s" % (prop, pth))
             return 1
+        undecided = [(h, w) for h, w in cskip if w.startswith("UNDECIDED")]
+        if undecided:
+            raise Infra("transport-level validation undecided for %d traces (e.g. %s:%s) and no other oracle decided" %
+                        (len(undecided), undecided[0][0].get("name"), undecided[0][0].get("kind")))
         log("OK %s %s: %d scenarios accepted, design level %d states, in %.1fs" % (prop, tier, nscen, states, time.time() - t0))
         return 0
     finally:
